@@ -9,8 +9,16 @@
 (***************************************************************************)
 EXTENDS Names, Json
 
-CONSTANTS NG, VPool, NPool, InPool, InitPool, Ops, SetV, SetN,
-          MaxNodes, MaxOuts, MaxIns, MaxDepth, EmitOn
+CONSTANTS NG,        \* number of graphs
+          Focus,     \* op names enabled in this configuration
+          Seeds,     \* ids of the construction histories to start from
+          NPool,     \* names given to new nodes
+          OutSel,    \* ids (into OutChoices) of the output-name tuples given to new nodes
+          NodeGraphs,\* graph= argument of Node(): subset of 0..NG
+          OpGraphs,  \* graphs on which append/extend/insert/remove are attempted
+          Ops,       \* op_types
+          SetV, SetN,\* names assigned later by the user (value.name = x / node.name = x)
+          MaxNodes, MaxDepth, EmitOn
 
 VARIABLES st, last, hist
 vars == <<st, last, hist>>
@@ -19,33 +27,53 @@ View == st
 C(op) == [ANoCall EXCEPT !.op = op]
 Compact(c) == <<c.op, c.g, c.n, c.ns, c.opt, c.name, c.names, c.names2, c.v>>
 
-SeqsUpTo(S, k) == UNION {[1..m -> S] : m \in 0..k}
+\* tuples a .cfg file cannot spell
+OutChoices == << <<>>, <<None>>, <<"val_0">>, <<"val_1", None>>, <<None, "val_1">>, <<None, None>>, <<"a">>,
+                 <<"val_2">>, <<"a", "a">> >>
+
+\* construction histories: Graph(inputs, (), nodes=(), initializers=...) for every graph
+G(g, ins, ws) == [C("Graph") EXCEPT !.g = g, !.names = ins, !.names2 = ws]
+Seed(id) ==
+  CASE id = 1 -> <<G(1, <<>>, <<>>), G(2, <<>>, <<>>)>>
+    [] id = 2 -> <<G(1, <<None>>, <<"val_1">>), G(2, <<"val_0">>, <<>>)>>
+    [] id = 3 -> <<G(1, <<"val_0", None>>, <<>>), G(2, <<>>, <<"val_0">>)>>
+    [] id = 4 -> <<G(1, <<"val_1">>, <<"val_0">>), G(2, <<None, None>>, <<>>)>>
+    [] id = 5 -> <<G(1, <<>>, <<>>)>>            \* graph 2 is constructed later, with nodes
+
+RECURSIVE ApplyAll(_, _)
+ApplyAll(s, q) == IF q = <<>> THEN s ELSE ApplyAll(AApply(s, Head(q)).s, Tail(q))
+
 N == 1..Len(st.nName)
 V == 1..Len(st.vName)
 Built == {g \in 1..NG : st.built[g]}
+OG == OpGraphs \cap Built
 Detached == {n \in N : st.nGraph[n] = 0}
+Pairs == {y \in N \X N : y[1] # y[2]}
+On(op, S) == IF op \in Focus THEN S ELSE {}
 
 Calls ==
-  \* Graph(inputs, (), nodes=ns, initializers=...) for the next graph not yet constructed
-  {[C("Graph") EXCEPT !.g = g, !.names = ins, !.names2 = ws, !.ns = ns] :
-       g \in {x \in 1..NG : ~st.built[x] /\ \A y \in 1..(x - 1) : st.built[y]},
-       ins \in SeqsUpTo(InPool, MaxIns), ws \in SeqsUpTo(InitPool, 1),
-       ns \in {<<>>} \cup {<<n>> : n \in Detached}}
+  \* Graph(inputs, (), nodes=ns) for a graph not constructed by the seed
+  On("Graph", {[C("Graph") EXCEPT !.g = g, !.names = ins, !.ns = ns] :
+       g \in {x \in 1..NG : ~st.built[x]}, ins \in {<<>>, <<None>>, <<"val_0">>},
+       ns \in {<<n>> : n \in Detached} \cup {<<y[1], y[2]>> : y \in {z \in Pairs : z[1] \in Detached /\ z[2] \in Detached}}})
   \cup
   \* Node(op, outputs / num_outputs, name=, graph=)
-  (IF Len(st.nName) < MaxNodes
-   THEN {[C("Node") EXCEPT !.opt = o, !.name = nm, !.names = outs, !.g = g] :
-            o \in Ops, nm \in NPool, outs \in SeqsUpTo(VPool, MaxOuts), g \in {0} \cup Built}
+  On("Node", IF Len(st.nName) < MaxNodes
+   THEN {[C("Node") EXCEPT !.opt = o, !.name = nm, !.names = OutChoices[k], !.g = g] :
+            o \in Ops, nm \in NPool, k \in OutSel, g \in NodeGraphs \cap ({0} \cup Built)}
    ELSE {})
-  \cup {[C("Append") EXCEPT !.g = g, !.n = n] : g \in Built, n \in N}
-  \cup {[C("Extend") EXCEPT !.g = x[1], !.ns = <<x[2], x[3]>>] : x \in {y \in Built \X N \X N : y[2] # y[3]}}
-  \cup {[C(o) EXCEPT !.g = x[1], !.n = x[2], !.ns = <<x[3]>>] :
-            o \in {"InsertBefore", "InsertAfter"}, x \in {y \in Built \X N \X N : y[2] # y[3]}}
-  \cup {[C("Remove") EXCEPT !.g = g, !.ns = <<n>>] : g \in Built, n \in N}
-  \cup {[C("SetNodeName") EXCEPT !.n = n, !.name = x] : n \in N, x \in SetN}
-  \cup {[C("SetValName") EXCEPT !.v = v, !.name = x] : v \in {w \in V : ~st.vInit[w]}, x \in SetV}
+  \cup On("Append", {[C("Append") EXCEPT !.g = g, !.n = n] : g \in OG, n \in N})
+  \cup On("Extend", {[C("Extend") EXCEPT !.g = g, !.ns = <<y[1], y[2]>>] : g \in OG, y \in Pairs})
+  \cup UNION {On(o, {[C(o) EXCEPT !.g = g, !.n = y[1], !.ns = <<y[2]>>] : g \in OG, y \in Pairs}) :
+                 o \in {"InsertBefore", "InsertAfter"}}
+  \cup On("Remove", {[C("Remove") EXCEPT !.g = g, !.ns = <<n>>] : g \in OG, n \in N})
+  \cup On("SetNodeName", {[C("SetNodeName") EXCEPT !.n = n, !.name = x] : n \in N, x \in SetN})
+  \cup On("SetValName", {[C("SetValName") EXCEPT !.v = v, !.name = x] : v \in {w \in V : ~st.vInit[w]}, x \in SetV})
 
-Init == st = AEmpty(NG) /\ last = [c |-> ANoCall, out |-> "init"] /\ hist = <<>>
+Init == \E id \in Seeds :
+          /\ st = ApplyAll(AEmpty(NG), Seed(id))
+          /\ hist = [i \in 1..Len(Seed(id)) |-> Compact(Seed(id)[i])]
+          /\ last = [c |-> ANoCall, out |-> "init"]
 
 Next == \E c \in Calls :
           LET r == AApply(st, c) IN
